@@ -138,10 +138,17 @@ class StructParam(Parameter):
                         (m, f'write_{p.name}') for m, p in self.paramdict.items())):
                     pobj = self.parameters[name]
                     pobj.insideRW += 1  # guarded by self.accessLock
+                    result = {}
                     try:
-                        return {m: getattr(self, f)(value[m]) for m, f in funclist}
+                        for m, f in funclist:
+                            result[m] = getattr(self, f)(value[m])
+                        return result
                     finally:
                         pobj.insideRW -= 1
+                        if result and len(result) < len(funclist):
+                            # a member write failed half way: the members already written
+                            # must show up in the struct
+                            setattr(self, name, {m: getattr(self, f[len('write_'):]) for m, f in funclist})
 
                 setattr(owner, struct_write_name, struct_write_func)
 
